@@ -81,6 +81,17 @@ def gen(ctx):
     if not m1 or not m2:
         raise RuntimeError("cannot find 'item.size = newsize' / the growth branch of GC:reregister")
     out["RESIZE_BEFORE_STEP"] = m1.start() < m2.start()
+    # GC:destroy: how many times it may sweep (1 = the single sweep of the code before 2edb035)
+    md = re.search(r"function GC:destroy\(\).*?\nend\n", gcsrc, re.S)
+    if not md:
+        raise RuntimeError("cannot find GC:destroy")
+    ml = re.search(r"for\s+i\s*=\s*1\s*,\s*(\d+)\s+do\s+GC_sweep\(self\)\s+if\s+#self\.items\s*==\s*0\s+then\s+break\s+end\s+end", md.group(0))
+    if ml:
+        out["DESTROY_SWEEPS"] = int(ml.group(1))
+    elif len(re.findall(r"GC_sweep\(self\)", md.group(0))) == 1:
+        out["DESTROY_SWEEPS"] = 1
+    else:
+        raise RuntimeError("cannot recognise the sweep (loop) of GC:destroy")
     out["WORD_SIZE"] = 8
     txt = ("(* GENERATED by checks/C10.py from /repo (lib/allocators/gc.nelua, lib/allocators/allocator.nelua) - do not edit *)\n"
            "From Coq Require Import ZArith.\n")
@@ -89,6 +100,7 @@ def gen(ctx):
     txt += "Definition WORD_SIZE : Z := %d%%Z.\n" % out["WORD_SIZE"]
     txt += "Definition DEFAULT_PAUSE : Z := %d%%Z.\n" % out["DEFAULT_PAUSE"]
     txt += "Definition PAUSE_SCALE : Z := %d%%Z.\n" % out["PAUSE_SCALE"]
+    txt += "Definition DESTROY_SWEEPS : nat := %d.\n" % out["DESTROY_SWEEPS"]
     for name in ("AUTO_LEAF_ON_REGISTER", "SCAN_SIZE_TEST", "RESIZE_BEFORE_STEP"):
         txt += "Definition %s : bool := %s.\n" % (name, "true" if out[name] else "false")
     vlib.write_if_changed(os.path.join(vlib.coq_dir(ID), "Gen.v"), txt)
@@ -887,7 +899,7 @@ def coroutine_stream(ctx, tag, extra):
                               "replay": "printf '%s\\n' | ./gccodriver" % "\\n".join(WITNESS_CODESTROY)})
     return tot
 
-KEY_FINALLOC = "history:N(32,finalizer that allocates a block with a finalizer);exit -> the block registered during GC:destroy is never finalized nor freed [GC:destroy sweeps once]"
+KEY_FINALLOC = "regression[2edb035]:history:N(32,finalizer that allocates a block with a finalizer);exit -> the block registered during GC:destroy is never finalized nor freed [GC:destroy sweeps once]"
 WITNESS_FINALLOC = ["G 0", "N 0 0 32 0 4"]
 
 
